@@ -21,6 +21,11 @@ func dischargeNE(c *Ctx, p *core.Prog, o *eng.NEObligation) (bool, string) {
 	if l, ok := eng.MapValuesMinLen(o.Instr, o.Container); ok && l >= o.Need {
 		return true, fmt.Sprintf("value of a successful map lookup; every value stored in that map has length >= %d", l)
 	}
+	if o.Need <= 1 {
+		if ok, why := eng.InductiveNonEmpty(o.Instr, core.Unspill(o.Container)); ok {
+			return true, why
+		}
+	}
 	// a parameter of an unexported function: the bound holds at every call site
 	if prm, isPrm := core.Unspill(o.Container).(*ssa.Parameter); isPrm {
 		fn := prm.Parent()
